@@ -6,6 +6,7 @@
 #include "../engine/src.h"
 #include "../genlib/parsed.h"
 #include "../genlib/builder.h"
+#include <tins/pdu_cacher.h>
 #include <tins/packet.h>
 #include <set>
 
@@ -41,10 +42,18 @@ const std::vector<ClassOps>& class_ops() {
         std::vector<ClassOps> o;
 #define X(C) o.push_back({#C, OpsOf<C>::cc, OpsOf<C>::mc, OpsOf<C>::ca, OpsOf<C>::ma, OpsOf<C>::dv, OpsOf<C>::ex});
         VERIF_ENTRY_CLASSES(X)
+        // the caching wrapper around a few representative classes: a PDU like any other as far as ownership goes
+        X(PDUCacher<IP>) X(PDUCacher<TCP>) X(PDUCacher<EthernetII>) X(PDUCacher<DNS>) X(PDUCacher<Dot11Beacon>) X(PDUCacher<RawPDU>) X(PDUCacher<ICMPv6>)
 #undef X
         return o;
     }();
     return O;
+}
+PDU* wrap_in_cacher(PDU* p) {   // takes p; returns the wrapper (p is copied into it and deleted) or p itself
+#define X(C) if (typeid(*p) == typeid(C)) { PDU* w = new PDUCacher<C>(static_cast<const C&>(*p)); delete p; return w; }
+    X(IP) X(TCP) X(EthernetII) X(DNS) X(Dot11Beacon) X(RawPDU) X(ICMPv6)
+#undef X
+    return p;
 }
 const ClassOps* ops_for(const PDU& p) {
     for (const ClassOps& o : class_ops()) if (o.is_exact(p)) return &o;
@@ -133,6 +142,10 @@ struct Machine {
         if (s.chance(40)) option_program(*p, s, prog, true);
         enforce_capacity(*p, ctx, prog);
         if (IP* ip = dynamic_cast<IP*>(p)) if (ip->src_addr() == IPv4Address((uint32_t)0)) ip->src_addr("10.0.0.9");
+        if (s.chance(7)) {
+            PDU* w = wrap_in_cacher(p);
+            if (w != p) { p = w; if (name) *name = short_cls(demangled(typeid(*p))); ctx.label("pdu-cacher"); }
+        }
         return p;
     }
 
